@@ -155,7 +155,8 @@ fn run_dp(path: &str, which: &str) -> String {
     set_recording(true);
     // build the handle (recorded: the Arc block is the only allocation with align >= 8 made here)
     enum Hd { A(Arc<E>), O(OffsetArc<E>), U1(ArcUnion<E, H>), U2(ArcUnion<H, E>), Q(UniqueArc<E>), D(Arc<dyn Dy>),
-              HS(Arc<HeaderSlice<H, [E]>>), SL(Arc<[E]>), TH(ThinArc<H, E>), R(*const E) }
+              HS(Arc<HeaderSlice<H, [E]>>), SL(Arc<[E]>), TH(ThinArc<H, E>), R(*const E),
+              HSU(UniqueArc<HeaderSlice<H, [MaybeUninit<E>]>>), MU(Arc<MaybeUninit<E>>) }
     let mk_vec = || vec![Pd::<1>(1, 1), Pd::<1>(2, 2), Pd::<1>(3, 3)];
     let h = match path {
         "arc" => Hd::A(Arc::new(Pd(1, 1))),
@@ -169,6 +170,16 @@ fn run_dp(path: &str, which: &str) -> String {
         "hs" => Hd::HS(Arc::from_header_and_vec(Pd(9, 9), mk_vec())),
         "slice" => Hd::SL(Arc::from(mk_vec())),
         "thin" => Hd::TH(ThinArc::from_header_and_iter(Pd(9, 9), mk_vec().into_iter())),
+        // C15: handles built uninitialised — dropped before assume_init (one slot written: it is not destroyed), and
+        // after assume_init (then header and every element die with the block)
+        "hsu_drop" => { let mut u = UniqueArc::from_header_and_uninit_slice(Pd(9, 9), 3); u.slice[0].write(Pd(1, 1)); Hd::HSU(u) }
+        "hsu_init" => {
+            let mut u = UniqueArc::from_header_and_uninit_slice(Pd(9, 9), 3);
+            for (i, s) in u.slice.iter_mut().enumerate() { s.write(Pd(i as u32 + 1, i as u64 + 1)); }
+            Hd::HS(unsafe { u.assume_init_slice_with_header() }.shareable())
+        }
+        "mu_drop" => { let mut u = UniqueArc::<E>::new_uninit(); u.write(Pd(1, 1)); Hd::MU(u.shareable()) }
+        "mu_init" => { let mut u = UniqueArc::<E>::new_uninit(); u.write(Pd(1, 1)); Hd::A(unsafe { UniqueArc::assume_init(u) }.shareable()) }
         _ => return "st=badpath".to_string(),
     };
     PANIC_ROLE.with(|c| c.set(match which { "hdr" => 0, "el" => 1, _ => -1 }));
@@ -176,6 +187,7 @@ fn run_dp(path: &str, which: &str) -> String {
         Hd::R(p) => drop(unsafe { Arc::from_raw(p) }),
         Hd::A(x) => drop(x), Hd::O(x) => drop(x), Hd::U1(x) => drop(x), Hd::U2(x) => drop(x), Hd::Q(x) => drop(x),
         Hd::D(x) => drop(x), Hd::HS(x) => drop(x), Hd::SL(x) => drop(x), Hd::TH(x) => drop(x),
+        Hd::HSU(x) => drop(x), Hd::MU(x) => drop(x),
     }));
     PANIC_ROLE.with(|c| c.set(-1));
     set_recording(false);
